@@ -321,6 +321,20 @@ func c18Deadlines(r *Run) {
 		plan = append(plan, step{kind: t.Draw(5), d: durs[t.Draw(len(durs))], reset: t.Draw(2)})
 	}
 	terminal := t.Draw(3) // 0 none, 1 active read, 2 active write
+	// bgRead: a Read is blocked in another goroutine during the whole program,
+	// which then only exercises the write side (write deadlines must not be
+	// confused by an active reader and vice versa).
+	bgRead := t.Pct(25)
+	if bgRead {
+		for i := range plan {
+			if plan[i].kind != 2 {
+				plan[i].kind = []int{0, 2}[i%2]
+			}
+		}
+		if terminal == 1 {
+			terminal = 2
+		}
+	}
 	termD := []time.Duration{time.Millisecond, time.Second, 10 * time.Second}[t.Draw(3)]
 	sig := fmt.Sprintf("deadline,terminal=%d", terminal)
 	r.Class = fmt.Sprintf("deadline/cli%v/t%d/n%d", o.LibClient, terminal, nSteps)
@@ -339,12 +353,14 @@ func c18Deadlines(r *Run) {
 	seq := 0
 	roundTrip := func(where string) bool {
 		seq++
-		in := Payload{Kind: 3, Len: 10 + seq*7, Seed: uint32(seq)}.Bytes()
-		peer.Inject(peer.Encode(wsref.Frame{Fin: true, Opcode: wsref.OpBinary, Payload: in}))
-		buf := make([]byte, len(in))
-		if _, err := io.ReadFull(nc, buf); err != nil || !bytes.Equal(buf, in) {
-			r.Violate("round-trip-failed", sig+","+where, "read of a fresh message failed %s: %v", where, err)
-			return false
+		if !bgRead {
+			in := Payload{Kind: 3, Len: 10 + seq*7, Seed: uint32(seq)}.Bytes()
+			peer.Inject(peer.Encode(wsref.Frame{Fin: true, Opcode: wsref.OpBinary, Payload: in}))
+			buf := make([]byte, len(in))
+			if _, err := io.ReadFull(nc, buf); err != nil || !bytes.Equal(buf, in) {
+				r.Violate("round-trip-failed", sig+","+where, "read of a fresh message failed %s: %v", where, err)
+				return false
+			}
 		}
 		out := Payload{Kind: 3, Len: 20 + seq*3, Seed: uint32(seq + 100)}.Bytes()
 		if n, err := nc.Write(out); err != nil || n != len(out) {
@@ -371,8 +387,15 @@ func c18Deadlines(r *Run) {
 			nc.SetWriteDeadline(tm)
 		}
 	}
+	if bgRead {
+		r.S.Go("bgreader", func() { nc.Read(make([]byte, 16)) })
+	}
+	r.D("bg_read", bgRead)
 	r.S.Go("prog", func() {
 		defer c.CloseNow()
+		if bgRead {
+			r.S.ParkE("a.prog.bgwait", func() bool { return rc.Lib.InReadLocked() }, nil)
+		}
 		for i, s := range plan {
 			r.S.Park("a.prog")
 			where := fmt.Sprintf("at step %d (%v)", i, pd[i])
